@@ -95,15 +95,66 @@ def resolve(fn_key):
     raise KeyError(fn_key)
 
 
-def run_case(C, model):
+POOL = ["x", "a1", "Ab_9", "-5", "+0", "007", "12", "0", "9223372036854775808", "", "ID", "`q`", '"q"', "[q]", "KEY", "unique",
+        "a,b", "(", ")", ",", "x,", "NULL", "null", "Not", "max", "*", "'s'", "''", "a.b", "<", ">", "A<B>", "ARRAY", "array<int>",
+        "a=b", "=", ".", "desc", "ASC", "Primary", "CHECK", "default", "[]", "x y", " x ", "\t", "1_0", "-", "+", "e1", "ON", "$", "a`b"]
+INTS = [-2 ** 63, -7, -1, 0, 1, 2, 7, 2 ** 31, 2 ** 63 - 1, 2 ** 63]
+
+
+def make_randgen(rnd, hooks):
+    import re
+    from pyvc.gen import ConcGen
+
+    class RandGen(ConcGen):
+        def __init__(self):
+            ConcGen.__init__(self, {}, hooks)
+
+        def _draw(self, name, f):
+            if name not in self.model:
+                self.model[name] = f()
+            self.used[name] = self.model[name]
+            return self.model[name]
+
+        def str(self, name, pattern=None, default="x"):
+            def f():
+                pool = [s for s in POOL if pattern is None or re.fullmatch(pattern, s)]
+                if default not in pool and (pattern is None or re.fullmatch(pattern, default)):
+                    pool.append(default)
+                return rnd.choice(pool) if pool else default
+            return self._draw(name, f)
+
+        def int(self, name, lo=None, hi=None, default=0):
+            return self._draw(name, lambda: rnd.choice([i for i in INTS + list(range(0, 4)) if (lo is None or i >= lo) and (hi is None or i <= hi)] or [default]))
+
+        def bool(self, name, default=False):
+            return bool(self._draw(name, lambda: rnd.random() < 0.5))
+
+        def choice(self, name, n):
+            return self._draw(name, lambda: rnd.randrange(n))
+
+        def exactly_one(self, flags):
+            if not any(f in self.model for f in flags):
+                pick = rnd.choice(flags)
+                for f in flags:
+                    self.model[f] = (f == pick)
+
+        def oseq(self, name, items=(), elem=None, min_len=0):
+            self._draw("len:" + name, lambda: max(min_len, rnd.choice([0, 1, 1, 2, 3])))
+            return ConcGen.oseq(self, name, items, elem, min_len)
+    return RandGen()
+
+
+def run_case(C, model, first_gen=None):
     from pyvc.gen import ConcGen
     hooks = real_hooks()
 
-    def build():
-        G = ConcGen(model, hooks)
+    def build(g=None):
+        G = g or ConcGen(model, hooks)
         b = C.build(G)
         return b.get("args", []), b.get("kwargs", {}), G
-    argsA, kwA, G = build()
+    argsA, kwA, G = build(first_gen)
+    if first_gen is not None:
+        model = dict(first_gen.model)
     argsB, kwB, _ = build()
     old, _, _ = build()
     res = dict(inputs=norm(old), used_symbols={k: v for k, v in G.used.items()})
@@ -168,8 +219,44 @@ def run_case(C, model):
     return res
 
 
+def enumerate_cases(req):
+    """bounded stand-in for one contract instance: N random admissible inputs on the real function"""
+    import random
+    importlib.import_module(req["module"])
+    from contracts import base
+    C = base.find(req["module"], req["cls"], req["case"])
+    rnd = random.Random(req.get("seed", 0))
+    hooks = real_hooks()
+    n_ok = n_skip = 0
+    failures, seen = [], set()
+    for i in range(req.get("n", 200)):
+        g = make_randgen(rnd, hooks)
+        try:
+            res = run_case(C, {}, g)
+        except Exception:
+            failures.append(dict(model=dict(g.model), error=traceback.format_exc()[-1500:]))
+            continue
+        key = json.dumps(res.get("inputs"), sort_keys=True, default=str)
+        if res.get("reason"):
+            n_skip += 1
+            continue
+        seen.add(key)
+        if res.get("reproduced"):
+            if len(failures) < 5:
+                failures.append(dict(model=res.get("used_symbols"), why=res.get("why"), observed=res.get("observed"), expected=res.get("expected"), exception=res.get("exception")))
+        else:
+            n_ok += 1
+    return dict(contract=C.name, tried=req.get("n", 200), admitted=n_ok + len(failures), distinct=len(seen), skipped=n_skip, failures=failures)
+
+
 def main():
     req = json.load(open(sys.argv[1]))
+    if req.get("mode") == "enumerate":
+        try:
+            print(json.dumps(enumerate_cases(req), default=str))
+        except Exception:
+            print(json.dumps(dict(error=traceback.format_exc()[-2000:])))
+        return
     try:
         importlib.import_module(req["module"])
         from contracts import base
